@@ -160,10 +160,22 @@ def printable(s):
     return all(32 <= ord(c) < 127 for c in s)
 
 
+HMOD = 2305843009213693951
+
+
+def hash_log(log):
+    h = 7
+    for u in log:
+        for b in u.encode("utf-8"):
+            h = (h * 131 + b + 1) % HMOD
+        h = (h * 131) % HMOD
+    return h
+
+
 def coq_impl(d):
     log = "None"
     if d["log"] is not None and all(printable(x) for x in d["log"]):
-        log = "(Some " + clist([cstring(x) for x in d["log"]]) + ")"
+        log = f"(Some ({cn(len(d['log']))}, {cn(hash_log(d['log']))}))"
     imps = [x for x in d["imports"] if printable(x)]
     return (f"(mkImpl {cz(d['cls'])} {clist([cn(m) for m in d['markers']])} "
             f"{clist([cstring(x) for x in imps])} {log})")
